@@ -373,11 +373,41 @@ func genKey(r *hx.Rng, route string) keySpec {
 	return k
 }
 
+// hdrMutate tampers with one field of the header len || salt || nonce prefix.
+func hdrMutate(r *hx.Rng, pk keySpec) (string, string) {
+	mask := 1 + r.Intn(255)
+	switch r.Intn(8) {
+	case 0:
+		return fmt.Sprintf("x0.%d", mask), "hdrlen"
+	case 1: // the header length of the other derived-key size (24 <-> 40)
+		return "x0.48", "hdrlenother"
+	case 2:
+		return fmt.Sprintf("x%d.%d", 1+r.Intn(pk.dk), mask), "hdrsalt"
+	case 3:
+		return fmt.Sprintf("x%d.%d", 1+pk.dk+r.Intn(7), mask), "hdrprefix"
+	case 4: // first / last byte of salt and prefix
+		return fmt.Sprintf("x%d.%d", r.Pick([]int{1, pk.dk, pk.dk + 1, pk.dk + 7}), 1<<r.Intn(8)), "hdredge"
+	case 5:
+		return fmt.Sprintf("t%d", r.Intn(pk.hdr())), "hdrtrunc"
+	case 6: // one header byte removed: everything after it shifts
+		i := r.Intn(pk.hdr())
+		return fmt.Sprintf("d%d.%d", i, i+1), "hdrdrop"
+	default: // one header byte doubled
+		i := r.Intn(pk.hdr())
+		return fmt.Sprintf("u%d.%d", i, i+1), "hdrdup"
+	}
+}
+
 func genK(r *hx.Rng) string {
 	route := "KS"
 	if r.Chance(40) {
 		route = "SU"
 	}
+	// directed: keyset whose first key is a decoy with the parameters of the
+	// encrypting key (it gets past the header and probes the first segment), the
+	// stream manipulated in the header / read with other associated data, the
+	// source returning io.EOF together with its last bytes
+	decoy := route == "KS" && r.Chance(12)
 	var ekeys []keySpec
 	nk := 1
 	if route == "KS" {
@@ -413,9 +443,13 @@ func genK(r *hx.Rng) string {
 		kind = "badkey"
 	}
 	dkeys := "="
-	if kind == "honest" && r.Chance(35) {
+	if kind == "honest" && (decoy || r.Chance(35)) {
 		var ds []keySpec
-		switch r.Intn(4) {
+		sel := r.Intn(4)
+		if decoy {
+			sel = 1
+		}
+		switch sel {
 		case 0: // same keys, reversed, other primary
 			for i := len(ekeys) - 1; i >= 0; i-- {
 				k := ekeys[i]
@@ -474,8 +508,8 @@ func genK(r *hx.Rng) string {
 			total += len(cs[i])
 		}
 		switch {
-		case r.Chance(38):
-		case r.Chance(12):
+		case !decoy && r.Chance(38), decoy && r.Chance(15):
+		case r.Chance(12), decoy && r.Chance(35):
 			raad = append(append([]byte{}, aad...), 1)
 			if len(aad) > 0 && r.Bool() {
 				raad = append([]byte{}, aad...)
@@ -488,22 +522,19 @@ func genK(r *hx.Rng) string {
 		case r.Chance(10):
 			rfail = r.Intn(total + 1)
 			kind = "rfail"
-		case r.Chance(12): // header manipulation
-			switch r.Intn(3) {
-			case 0:
-				mut, kind = fmt.Sprintf("x0.%d", 1+r.Intn(255)), "hdrlen"
-			case 1:
-				mut, kind = fmt.Sprintf("x%d.%d", 1+r.Intn(pk.hdr()-1), 1+r.Intn(255)), "hdrflip"
-			default:
-				mut, kind = fmt.Sprintf("t%d", r.Intn(pk.hdr())), "hdrtrunc"
-			}
+		case decoy || r.Chance(14): // header manipulation, every field
+			mut, kind = hdrMutate(r, pk)
 		default:
 			mut, kind = mutate(r, total, bounds(pk.hdr(), cs))
 		}
 	}
 	sizes, drain := readSizes(r, max(full, 1))
+	sm := srcMode(r)
+	if decoy {
+		sm = "1" + sm[1:]
+	}
 	return fmt.Sprintf("C07|K|%s|%s|%s|%s|%s|%s|%s|%s|%s|%s|%s|%s|%s|%d", route, keysStr(ekeys), dkeys, hx.H(tape),
-		hx.H(aad), ops, optStr(wfail), mut, kind, hx.H(raad), srcMode(r), optStr(rfail), joinInts(sizes), drain)
+		hx.H(aad), ops, optStr(wfail), mut, kind, hx.H(raad), sm, optStr(rfail), joinInts(sizes), drain)
 }
 
 func gen(r *hx.Rng, n int, tier string) []string {
